@@ -194,7 +194,7 @@ theorem stream_quoted (zl : St) (s rest : Bytes) (o r sp : Bool) (hL : LS zl o r
       (quoteOpen (atEnd zl [] 34)).l :: stream (quoteOpen (atEnd zl [] 34)) (s ++ 34 :: rest) := by
     rw [stream_step, next_ready zl _ hL.rdy]
     have := scan_open_quote { zl with comBuf := [], comment := [] } [] (s ++ 34 :: rest) f1 f2
-    unfold atEnd advW at *
+    unfold atEnd advN at *
     rw [this]
   -- the octets between the quotes
   have hZq : (quoteOpen (atEnd zl [] 34)).quote = true := rfl
